@@ -48,13 +48,13 @@ func main() {
 		// ordered by value per unit of work: the deadline cuts the tail of this list on a busy machine
 		plan = []search{
 			{"small", "full", 2}, {"free", "full", 2}, {"nearmax", "edge", 3}, {"dust", "full", 2}, {"nearmax", "full", 2},
-			{"small", "staking", 3}, {"small", "full", 3}, {"dust", "staking", 3}, {"nearmax", "staking", 3},
+			{"small", "staking", 3}, {"minstake", "staking", 3}, {"small", "full", 3}, {"dust", "staking", 3}, {"nearmax", "staking", 3},
 			{"small", "staking", 4},
 		}
 	} else {
 		plan = []search{
 			{"small", "full", 3}, {"free", "full", 3}, {"nearmax", "edge", 4}, {"dust", "full", 3}, {"nearmax", "full", 3}, {"faucet", "full", 2}, {"small/p1", "full", 2},
-			{"small", "staking", 4}, {"dust", "staking", 4}, {"nearmax", "staking", 4}, {"small/p1", "staking", 3},
+			{"small", "staking", 4}, {"minstake", "staking", 4}, {"dust", "staking", 4}, {"nearmax", "staking", 4}, {"small/p1", "staking", 3},
 			{"small", "full", 4}, {"small", "staking", 5},
 		}
 	}
